@@ -887,7 +887,7 @@ func c06Streams(r *core.Report) {
 			})
 		}
 	})
-	r.RunRule("C06.single", "a JSON body is exactly one JSON value: every function of openapi3filter that decodes a body with a json.Decoder (`dec.Decode(&v)`) asks the same decoder for what follows (`dec.Token()` / `dec.More()` / `dec.Buffered()`) before it returns the value — trailing bytes after the first value are an error, not ignored input", 1, func() {
+	r.RunRule("C06.single", "a JSON body is exactly one JSON value: every function of openapi3filter that decodes a body with a json.Decoder (`dec.Decode(&v)`) asks the same decoder for what follows (`dec.Token()` until io.EOF, or `dec.Buffered()`; `dec.More()` alone is false before `]` and `}` and does not count) before it returns the value — trailing bytes after the first value are an error, not ignored input", 1, func() {
 		k := 0
 		for _, d := range p.AllDecls("openapi3filter") {
 			if d.Body == nil {
@@ -911,7 +911,7 @@ func c06Streams(r *core.Report) {
 			if dec == nil {
 				continue
 			}
-			decodes, asks := false, false
+			decodes, asks, weak := false, false, false
 			ast.Inspect(d.Body, func(nd ast.Node) bool {
 				c, ok := nd.(*ast.CallExpr)
 				if !ok {
@@ -927,8 +927,11 @@ func c06Streams(r *core.Report) {
 				switch sel.Sel.Name {
 				case "Decode":
 					decodes = true
-				case "Token", "More", "Buffered", "InputOffset":
+				case "Token", "Buffered", "InputOffset":
 					asks = true
+				case "More":
+					// More() is false when the next byte is ] or }: `{"a":1}}` passes such a test
+					weak = true
 				}
 				return true
 			})
@@ -939,6 +942,8 @@ func c06Streams(r *core.Report) {
 			key := "single:" + core.FuncName(d)
 			if asks {
 				r.OK(key, p.Pos(d.Pos()), "the decoder is asked for what follows the value")
+			} else if weak {
+				r.Bad(key, p.Pos(d.Pos()), fmt.Sprintf("%s asks the decoder only whether there is More(): that is false when the next byte is `]` or `}`, so `{\"name\":\"x\"}}` and `[\"x\"]]` are accepted with their trailing bytes", core.FuncName(d)))
 			} else {
 				r.Bad(key, p.Pos(d.Pos()), fmt.Sprintf("%s decodes the first JSON value of the body and returns it without looking at what follows: `{\"name\":\"x\"} trailing garbage` and `{\"name\":\"x\"}{\"name\":5}` are accepted as the body {\"name\":\"x\"}", core.FuncName(d)))
 			}
